@@ -1,4 +1,4 @@
-#!/usr/bin/env python3
+#!/venv/bin/python
 """Regenerate sa/data/reference_shape.json (function inventory and local-name roles) from the reference tree.
 
 Run by hand when the reference tree moves (after a `fix:` commit); never run by a check.  The file only steers the
